@@ -61,12 +61,16 @@ class TU:
                 f.lambda_index = i + 1
         self.lambdas_of = kids
         # overload ordinals: patterns that share a key are numbered by source order
+        # (by the signature as written, `sig` of the pattern facts, so that moving an overload up or down in the class changes
+        # no finding key; equal signatures - which cannot be overloads of one scope - fall back to source order)
         pl = defaultdict(set)
+        sig = {}
         for p in self.patterns:
             pl[short(p['key'])].add(p['line'])
+            sig[(short(p['key']), p['line'])] = p.get('sig', '')
         for f in self.fns:
             pl[f.skey].add(f.line)
-        self.overloads = {k: sorted(v) for k, v in pl.items() if len(v) > 1}
+        self.overloads = {k: sorted(v, key=lambda ln, k=k: (sig.get((k, ln), ''), ln)) for k, v in pl.items() if len(v) > 1}
         self.class_by_q = {c['q']: c for c in self.classes}
         self.classes_by_key = defaultdict(list)
         for c in self.classes:
@@ -424,6 +428,59 @@ class TU:
 
     def fns_named(self, skey):
         return self.by_key.get(skey, [])
+
+    def counter_guard_classes(self):
+        """Classes that behave like eventpp::internal_::CounterGuard, whatever they are called and wherever they are declared (a local
+        struct of the function that uses it included): every user-written constructor takes the counter by reference, binds a reference
+        member to it and increments that member exactly once on every path; the destructor decrements the same member exactly once; no
+        other member function writes it. {short class key: member name}."""
+        if getattr(self, '_cgc', None) is not None:
+            return self._cgc
+        from .effects import writes
+        from .paths import path
+        res = {}
+        self._cgc = {}      # re-entrant calls (writes() below asks for the table) see the empty table
+        by_cls = defaultdict(list)
+        for f in self.fns:
+            if f.kind in ('ctor', 'dtor', 'method') and not f.d.get('implicit') and not f.d.get('defaulted'):
+                by_cls[f.cls].append(f)
+        for cls, fs in by_cls.items():
+            ctors = [f for f in fs if f.kind == 'ctor']
+            dtors = [f for f in fs if f.kind == 'dtor']
+            if not ctors or not dtors:
+                continue
+            member = None
+            ok = True
+            for f in ctors:
+                ws = [w for w in writes(f) if w['how'] in ('++', '--', 'assign', '+=', '-=') or w['how'].startswith('call:')]
+                if len(f.params) != 1 or f.params[0].get('pass') != 'lref' or len(ws) != 1 or ws[0]['how'] != '++' or len(ws[0]['path']) != 2 \
+                        or ws[0]['path'][0] != 'this' or not f.pos_postdominates(ws[0]['pos'], (f.entry, 0)):
+                    ok = False
+                    break
+                m = ws[0]['path'][1][1:]
+                inits = [i for i in f.d.get('inits', []) if i.get('member') == m]
+                t = self.type(inits[0].get('t')) if inits else None
+                n = inits[0].get('n') if inits else None
+                if not (t and t['ref'] == 1 and n and path(f, n) and path(f, n)[0].startswith('v:') and len(path(f, n)) == 1):
+                    ok = False
+                    break
+                if member not in (None, m):
+                    ok = False
+                    break
+                member = m
+            if not ok or member is None:
+                continue
+            for f in dtors:
+                ws = [w for w in writes(f) if w['how'] in ('++', '--', 'assign', '+=', '-=') or w['how'].startswith('call:')]
+                if len(ws) != 1 or ws[0]['how'] != '--' or ws[0]['path'] != ('this', '.' + member) or not f.pos_postdominates(ws[0]['pos'], (f.entry, 0)):
+                    ok = False
+            for f in fs:
+                if f.kind == 'method' and any(w['path'][:2] == ('this', '.' + member) for w in writes(f)):
+                    ok = False
+            if ok:
+                res[cls] = member
+        self._cgc = res
+        return res
 
     def type(self, idx):
         return self.types[idx] if idx is not None and idx >= 0 else None
